@@ -144,6 +144,20 @@ def cdriver(name, variant, sources, extra_flags=(), libs=()):
     return out
 
 
+def shim(name, variant='rel'):
+    """Compile an LD_PRELOAD shim from cdrv/<name>.c (no repo headers needed). Returns the .so path."""
+    d = build(variant)
+    src = os.path.join(VERIF, 'cdrv', name + '.c')
+    with open(src, 'rb') as fh:
+        h = hashlib.sha256(fh.read()).hexdigest()[:10]
+    out = os.path.join(d, '%s-%s.so' % (name, h))
+    if not os.path.exists(out):
+        tmp = out + '.tmp%d' % os.getpid()
+        _run(['gcc', '-O1', '-shared', '-fPIC', src, '-ldl', '-o', tmp])
+        os.replace(tmp, out)
+    return out
+
+
 def ensure_deps():
     """Install pure-python deps from the offline wheelhouse into /verif/.deps (git-ignored)."""
     deps = os.path.join(VERIF, '.deps')
